@@ -921,6 +921,141 @@ def _renest(tree, minv):
     return done
 
 
+def _import_bindings(tree):
+    """{local name: description of what an import statement binds it to} for the module-level imports."""
+    out = {}
+    for st in tree.body:
+        if isinstance(st, ast.ImportFrom):
+            for a in st.names:
+                out[a.asname or a.name] = ('from', st.level, st.module, a.name)
+        elif isinstance(st, ast.Import):
+            for a in st.names:
+                out[(a.asname or a.name).split('.')[0]] = ('import', a.name, a.asname)
+    return out
+
+
+def _cross_module_moves(forest, inv):
+    """Private module-level functions / constants of the reference tree that were moved to another module of the package (and are
+    used from their old module through an import): a copy under the reference name is put back into the old module and the old
+    module's uses are pointed at it.  Exact when every name the definition takes from its surroundings means the same thing in
+    both modules (a builtin, or bound by the same import statement in both), which is checked.  Returns {module: {description}}."""
+    import builtins as _b
+    done = {}
+    trees = {m: None for m in forest.trees}
+
+    def tree_of(m):
+        if trees[m] is None:
+            trees[m] = _strip_parents(forest.trees[m])
+        return trees[m]
+    for a_mod in list(forest.trees):
+        minv = inv.get(a_mod, {})
+        a_tree0 = forest.trees[a_mod]
+        defined = {st.name for st in a_tree0.body if isinstance(st, (ast.FunctionDef, ast.ClassDef))}
+        for st in a_tree0.body:
+            if isinstance(st, ast.Assign):
+                defined |= {n.id for t in st.targets for n in ast.walk(t) if isinstance(n, ast.Name)}
+        ref_fns = [q for q in minv.get('functions', ()) if '.' not in q and q.startswith('_') and not q.startswith('__') and q not in defined and q in minv.get('locals', {})]
+        ref_cs = [n for n in minv.get('names', ()) if n.startswith('_') and not n.startswith('__') and n not in defined and n in minv.get('values', {})]
+        if not ref_fns and not ref_cs:
+            continue
+        a_imports = _import_bindings(a_tree0)
+        for b_mod in list(forest.trees):
+            if b_mod == a_mod:
+                continue
+            binv = inv.get(b_mod, {})
+            b_tree0 = forest.trees[b_mod]
+            b_imports = _import_bindings(b_tree0)
+            b_known = set(binv.get('functions', ())) | set(binv.get('names', ())) | set(binv.get('classes', ()))
+            b_defined = {st.name for st in b_tree0.body if isinstance(st, (ast.FunctionDef, ast.ClassDef))} | \
+                {t.id for st in b_tree0.body if isinstance(st, ast.Assign) for t in st.targets if isinstance(t, ast.Name)}
+            b_new_f = {st.name: st for st in b_tree0.body if isinstance(st, ast.FunctionDef) and st.name not in b_known}
+            b_new_c = {st.targets[0].id: st for st in b_tree0.body if isinstance(st, ast.Assign) and len(st.targets) == 1
+                       and isinstance(st.targets[0], ast.Name) and st.targets[0].id not in b_known}
+            if not b_new_f and not b_new_c:
+                continue
+            # how module A refers to names of module B
+            used_direct = {k: v[3] for k, v in a_imports.items() if v[0] == 'from' and (v[2] or '').split('.')[-1] == b_mod}     # local -> name in B
+            b_aliases = {k for k, v in a_imports.items() if (v[0] == 'from' and v[3] == b_mod and v[2] in (None, 'segno')) or (v[0] == 'import' and v[1].split('.')[-1] == b_mod and v[2])}
+            used_attr = {n.attr for n in ast.walk(a_tree0) if isinstance(n, ast.Attribute) and isinstance(n.value, ast.Name) and n.value.id in b_aliases}
+            reachable = set(used_direct.values()) | used_attr
+            volatile = set(ref_fns) | set(ref_cs) | set(b_new_f) | set(b_new_c)
+            pairs = []
+            for m in ref_fns:
+                a = [_blank(x[0], volatile | set(minv.get('params', {}).get(m, ()))) for x in minv['locals'][m]]
+                for n, fn in b_new_f.items():
+                    if n not in reachable:
+                        continue
+                    b = [_blank(_skeleton(st, _fn_locals(fn) | _params(fn))[0], volatile) for st in _flat_statements(fn)]
+                    pairs.append((_sim(a, b) + (0.3 if n == m else 0), m, n, 'f'))
+            for m in ref_cs:
+                a = _blank(minv['values'][m], volatile)
+                for n, st in b_new_c.items():
+                    if n not in reachable:
+                        continue
+                    b = _blank(_skeleton(st.value, ())[0], volatile)
+                    import difflib
+                    r = 1.0 if a == b else difflib.SequenceMatcher(a=a, b=b, autojunk=False).ratio() * 0.99
+                    pairs.append((r + (0.3 if n == m else 0), m, n, 'c'))
+            taken_m, taken_n = set(), set()
+            for r, m, n, kind in sorted(pairs, key=lambda t: (-t[0], t[1], t[2])):
+                if r < 0.4 or m in taken_m or n in taken_n:
+                    continue
+                node = b_new_f[n] if kind == 'f' else b_new_c[n]
+                free = _maybe_free(node) if kind == 'f' else {x.id for x in ast.walk(node.value) if isinstance(x, ast.Name)}
+                same = True
+                for name in free:
+                    if name == n or hasattr(_b, name):
+                        continue
+                    if name in a_imports and name in b_imports and a_imports[name] == b_imports[name]:
+                        continue
+                    # module A imports the very object module B defines under this name
+                    ai = a_imports.get(name)
+                    if ai is not None and ai[0] == 'from' and (ai[2] or '').split('.')[-1] == b_mod and ai[3] == name and name in b_defined:
+                        continue
+                    same = False
+                    break
+                if not same:
+                    continue
+                taken_m.add(m)
+                taken_n.add(n)
+                at = tree_of(a_mod)
+                cp = copy.deepcopy(node)
+                for x in ast.walk(cp):
+                    if hasattr(x, '_parent'):
+                        del x._parent
+                if kind == 'f':
+                    cp.name = m
+                    _apply_renames(cp, {n: m})
+                else:
+                    cp.targets[0].id = m
+                # uses in A: the imported local name(s) and attribute accesses
+                local_names = [k for k, v in used_direct.items() if v == n]
+                for x in ast.walk(at):
+                    if isinstance(x, ast.Name) and x.id in local_names:
+                        x.id = m
+                for parent in ast.walk(at):
+                    for fld, val in ast.iter_fields(parent):
+                        if isinstance(val, ast.Attribute) and val.attr == n and isinstance(val.value, ast.Name) and val.value.id in b_aliases:
+                            setattr(parent, fld, ast.copy_location(ast.Name(id=m, ctx=val.ctx), val))
+                        elif isinstance(val, list):
+                            for i, v in enumerate(val):
+                                if isinstance(v, ast.Attribute) and v.attr == n and isinstance(v.value, ast.Name) and v.value.id in b_aliases:
+                                    val[i] = ast.copy_location(ast.Name(id=m, ctx=v.ctx), v)
+                # drop the import of the moved name (its local name is now the copy)
+                for stx in at.body:
+                    if isinstance(stx, ast.ImportFrom):
+                        stx.names = [al for al in stx.names if not ((al.asname or al.name) in local_names)] or stx.names
+                pos = next((i for i, stx in enumerate(at.body) if isinstance(stx, (ast.FunctionDef, ast.ClassDef))), len(at.body))
+                at.body.insert(pos, cp)
+                done.setdefault(a_mod, {})[f'{b_mod}.{n} -> {a_mod}.{m}'] = round(min(r, 1.0), 2)
+    out_forest = forest
+    for m, t in trees.items():
+        if t is not None and m in done:
+            ast.fix_missing_locations(t)
+            out_forest = out_forest.with_tree(m, t)
+    return out_forest, done
+
+
 def _strip_parents(tree):
     t2 = copy.deepcopy(tree)
     for n in ast.walk(t2):
@@ -950,6 +1085,10 @@ def apply(forest):
             t3 = _strip_parents(forest.trees[other])
             if _apply_renames_importer(t3, mod, mp):
                 forest = forest.with_tree(other, t3)
+    # step -0.75: private functions / constants moved to another module of the package
+    forest, moved = _cross_module_moves(forest, inv)
+    for m, d in moved.items():
+        info['renamed'][f'{m}.<from other module>'] = d
     # step -0.5: functions moved between module level and a function body
     for mod in list(forest.trees):
         minv = inv.get(mod, {})
